@@ -175,6 +175,7 @@ func varSeriesTypes() []*Ty {
 		{Kind: "list", Elem: &Ty{Kind: "union", None: true, Fields: []*Ty{u8}}, N: 4},
 		{Kind: "list", Elem: &Ty{Kind: "cont", Fields: []*Ty{{Kind: "list", Elem: u8, N: 2}}}, N: 4},
 		{Kind: "vec", Elem: &Ty{Kind: "bitlist", N: 8}, N: 2},
+		{Kind: "vec", Elem: &Ty{Kind: "list", Elem: u8, N: 3}, N: 1},
 		{Kind: "vec", Elem: &Ty{Kind: "list", Elem: u8, N: 3}, N: 3},
 		{Kind: "cont", Fields: []*Ty{{Kind: "bitlist", N: 8}, {Kind: "list", Elem: u8, N: 3}}},
 		{Kind: "cont", Fields: []*Ty{{Kind: "list", Elem: u8, N: 3}, {Kind: "bitlist", N: 8}, {Kind: "union", None: true, Fields: []*Ty{u8}}}},
@@ -247,6 +248,7 @@ func TestC03(t *testing.T) {
 			offsetTables(c, maxP, func(d []byte) { do("offtab", ty, d) })
 		}
 	}
+	overLimitCases(newRng(333), func(ty *Ty, d []byte) { do("overlimit", ty, d) })
 	// leaf types at exactly their size (valid + bool 2)
 	n := 260
 	if thorough() {
@@ -303,4 +305,56 @@ func buildViewSafe(t *Ty, v *Val) (vw view.View, err error) {
 		_, err = serializeView(vw)
 	}
 	return
+}
+
+// overLimitCases feeds a decoder of List[e, n] / Bitlist[n] the valid encoding of a value with
+// n+1 .. n+3 elements (encoded through the same type with a larger limit), also nested in a
+// container: the count must be checked against the limit, whatever the byte size allows.
+func overLimitCases(r *rand.Rand, f func(ty *Ty, d []byte)) {
+	u8 := &Ty{Kind: "u", N: 1}
+	elems := []*Ty{
+		u8, {Kind: "u", N: 8}, {Kind: "bool"}, {Kind: "root"},
+		{Kind: "list", Elem: u8, N: 10}, {Kind: "bitlist", N: 12},
+		{Kind: "cont", Fields: []*Ty{u8, {Kind: "list", Elem: u8, N: 10}}},
+		{Kind: "cont", Fields: []*Ty{u8, {Kind: "u", N: 2}}},
+		{Kind: "union", None: true, Fields: []*Ty{{Kind: "list", Elem: u8, N: 10}}},
+	}
+	g := &gen{r: r, maxElem: 0}
+	for _, e := range elems {
+		for _, n := range []uint64{0, 1, 2, 5} {
+			for extra := uint64(1); extra <= 3; extra++ {
+				wide := &Ty{Kind: "list", Elem: e, N: n + extra}
+				narrow := &Ty{Kind: "list", Elem: e, N: n}
+				v := &Val{Kind: "seq"}
+				for i := uint64(0); i < n+extra; i++ {
+					v.Seq = append(v.Seq, g.val(e)) // maxElem 0: inner collections are empty
+				}
+				vw, err := buildViewSafe(wide, v)
+				if err != nil {
+					continue
+				}
+				d, err := serializeView(vw)
+				if err != nil {
+					continue
+				}
+				f(narrow, d)
+				// the same list as the (only variable-size) field of a container
+				off := []byte{5, 0, 0, 0, 0xaa}
+				f(&Ty{Kind: "cont", Fields: []*Ty{narrow, u8}}, append(off, d...))
+			}
+		}
+	}
+	for _, n := range []uint64{0, 1, 7, 8, 9, 255, 256} {
+		for extra := uint64(1); extra <= 2; extra++ {
+			v := &Val{Kind: "bits", Bits: make([]bool, n+extra)}
+			vw, err := buildViewSafe(&Ty{Kind: "bitlist", N: n + extra}, v)
+			if err != nil {
+				continue
+			}
+			d, err := serializeView(vw)
+			if err == nil {
+				f(&Ty{Kind: "bitlist", N: n}, d)
+			}
+		}
+	}
 }
